@@ -420,6 +420,18 @@ Definition read_all_cas (bs : list N) (ft : footer) : option (list cas_info) :=
   let sec := skipn (N.to_nat (ft_cas_info_offset ft)) bs in
   match parse_all parse_cas_info (fuel_of sec) sec with Some (l, _) => Some l | None => None end.
 
+(* MDBShardFile::export_with_expiration: the bytes up to the footer offset, followed by the footer with a new expiry *)
+Definition ser_footer (ft : footer) : list N :=
+  ser_MDBShardFileFooter (ft_version ft) (ft_file_info_offset ft) (ft_cas_info_offset ft) (ft_file_lookup_offset ft) (ft_file_lookup_num ft)
+    (ft_cas_lookup_offset ft) (ft_cas_lookup_num ft) (ft_chunk_lookup_offset ft) (ft_chunk_lookup_num ft)
+    (ft_key ft) (ft_created ft) (ft_expiry ft) (ft_buffer ft) (ft_ondisk ft) (ft_materialized ft) (ft_stored ft) (ft_footer_offset ft).
+Definition set_expiry (ft : footer) (e : N) : footer :=
+  mkFooter (ft_version ft) (ft_file_info_offset ft) (ft_cas_info_offset ft) (ft_file_lookup_offset ft) (ft_file_lookup_num ft)
+    (ft_cas_lookup_offset ft) (ft_cas_lookup_num ft) (ft_chunk_lookup_offset ft) (ft_chunk_lookup_num ft)
+    (ft_key ft) (ft_created ft) e (ft_buffer ft) (ft_ondisk ft) (ft_materialized ft) (ft_stored ft) (ft_footer_offset ft).
+Definition export_with_expiration (bs : list N) (ft : footer) (e : N) : list N :=
+  firstn (N.to_nat (ft_footer_offset ft)) bs ++ ser_footer (set_expiry ft e).
+
 Inductive lookup_result (A : Type) := Found (a : A) | NotFound | CollisionError | IoError.
 Arguments Found {A} _. Arguments NotFound {A}. Arguments CollisionError {A}. Arguments IoError {A}.
 
